@@ -13,6 +13,20 @@ out = ["## 5. Per-property coverage as built\n",
        "Generated from `meta/Cxx.json` (the text each check copies into its evidence) and",
        "`seeded/*/meta.json`. \"Caught by\" names the tier of the property's own check that reports a",
        "reproducing `VIOLATION` with the change applied to `/repo`.\n"]
+# ---- summary of the seeded changes
+ind = [s for s in seeds if not s["dir"].startswith("orig-")]
+orig = [s for s in seeds if s["dir"].startswith("orig-")]
+def own(s):
+    return s.get("caught", {}).get(s["breaks"][0], {})
+caught_own = [s for s in ind if own(s).get("verdict", "").startswith("CAUGHT")]
+elsewhere = [s for s in ind if not own(s).get("verdict", "").startswith("CAUGHT") and any(r.get("verdict", "").startswith("CAUGHT") for r in s.get("caught", {}).values())]
+notcaught = [s for s in ind if not any(r.get("verdict", "").startswith("CAUGHT") for r in s.get("caught", {}).values())]
+hist = [s for s in ind if any("history" in r for r in s.get("caught", {}).values())]
+out += ["### Seeded changes: summary\n",
+        "%d changes written by independent sub-agents (given only a property's text and a scratch worktree; two rounds, the second told which code sites the first had used) and %d original defects (reverse of each `fix:` commit). Every one was confirmed in a scratch worktree: applies, the pinned suite still passes (235 + 49), the demonstration fails with it and passes without." % (len(ind), len(orig)),
+        "Final state: %d of the %d independent changes are reported as a reproducing `VIOLATION` by the quick tier of the check of the property they were written against, %d more by the check that owns the behaviour they actually break (%s), %d are not reported as a violation (%s). All %d original defects are caught." % (
+            len(caught_own), len(ind), len(elsewhere), ", ".join(s["dir"] for s in elsewhere) or "-", len(notcaught), ", ".join(s["dir"] for s in notcaught) or "-", len(orig)),
+        "**%d of the independent changes were missed (exit 0 or exit 2) by the checks as they stood when the change was first run**; each led to new harnesses or a driver change, listed as `history` in the change's `meta.json` and under the property below: %s.\n" % (len(hist), ", ".join(s["dir"] for s in hist))]
 for p in props:
     pid = p["id"]
     mf = os.path.join(V, "meta", pid + ".json")
@@ -30,7 +44,9 @@ for p in props:
         for s in mine:
             c = s.get("caught", {}).get(pid, {})
             verdict = c.get("verdict", "not yet run")
-            out.append("  - `%s` — %s → %s" % (s["dir"], s.get("what", ""), verdict))
+            out.append("  - `%s` — %s → %s" % (s["dir"], s.get("what", "")[:220], verdict))
+            if c.get("history"):
+                out.append("    - history: " + c["history"])
     out.append("")
 parts = sorted(glob.glob(os.path.join(V, "design_parts", "*.md")))
 text = ""
